@@ -380,7 +380,7 @@ func strRule(t *rapid.T) int {
 var hugeFees = []uint64{1 << 62, 1 << 61, 6148914691236517206, 6148914691236517206, 3689348814741910324, 3074457345618258603, 2635249153387078803, 1<<63 - 1}
 
 var denomsValid = []string{"nund", "nund", "nund", "atto", "stake", "abc", "ibc/27394FB092D2ECCD56123C74F36E4C1F926001CEADA9CA97EA622B25F41E5EB2"}
-var denomsInvalid = []string{"", " ", "a", "1abc", "n und", "NUND!", "x#y"}
+var denomsInvalid = []string{"", " ", "a", "1abc", "n und", "NUND!", "x#y", " nund", "nund ", "nund\n", "\tnund", " stake\t"}
 var u64Bounds = []uint64{0, 1, 2, 5, 10, 1000, 1<<63 - 1, 1 << 63, ^uint64(0)}
 
 // GenParams draws a complete parameter structure, valid or invalid.
@@ -437,6 +437,9 @@ func GenParams(t *rapid.T, p *Profile, kind string, nAcc int) *ParamsPatch {
 		pp.FeeRec = pick(t, []uint64{10, 1, 1000, 3, 20}, "feeRec")
 		pp.FeePur = pick(t, []uint64{5, 1, 1000, 2, 9}, "feePur")
 		pp.Denom = "nund"
+		if oneIn(t, 6, "regDenom") {
+			pp.Denom = pick(t, denomsValid, "regDenomV") // the fee denomination may be any well-formed denomination (an IBC voucher, another token)
+		}
 		pp.DefLimit = uint64(uniRange(t, 1, 6, "def"))
 		pp.MaxLimit = pp.DefLimit + uint64(uniRange(t, 0, 8, "maxExtra"))
 		if oneIn(t, 4, "lowMax") {
